@@ -814,6 +814,8 @@ def write_pam(matrix, matrix_size, out, scale=1, border=None, dark='#000', light
             stroke_color += (255,)
     elif colored_stroke or not (_color_is_black(bg_color) or _color_is_white(bg_color)):
         tuple_type = 'RGB'
+    if not transparency and len(stroke_color) + len(bg_color) != 6:
+        raise ValueError('An alpha channel is not supported unless "light" is None (transparent)')
     is_rgb = tuple_type.startswith('RGB')
     colours = None
     if not is_rgb and transparency:
